@@ -1099,14 +1099,18 @@ func c18EmitProtocol(c *Ctx, rule string) {
 				}
 				emitted, inAttr, emitThis, addedThis := false, false, false, false
 				facts := map[string]bool{}
+				// whether groups are pending does not change while one record / attribute list is processed: once
+				// established on the path it holds for the later attributes too (a flag computed up front is tested
+				// silently from then on)
+				pathPend := map[string]bool{}
 				cleared := false
 				why := ""
 				flush := func() {
 					// end of one attribute's step
-					if inAttr && !emitThis && !emitted && facts["pending=T"] && facts["real=T"] {
+					if inAttr && !emitThis && !emitted && (facts["pending=T"] || pathPend["pending=T"]) && facts["real=T"] {
 						why = "a real field is added while groups are pending and not yet emitted"
 					}
-					if inAttr && !emitThis && !emitted && !(facts["pending=F"] || facts["real=F"]) {
+					if inAttr && !emitThis && !emitted && !(facts["pending=F"] || pathPend["pending=F"] || facts["real=F"]) {
 						why = "a field is added without emitting although neither 'no groups pending' nor 'field is Skip' was established"
 					}
 				}
@@ -1144,6 +1148,9 @@ func c18EmitProtocol(c *Ctx, rule string) {
 						flush()
 						inAttr = false
 					default:
+						if e == "pending=T" || e == "pending=F" {
+							pathPend[e] = true
+						}
 						if inAttr && !addedThis {
 							facts[e] = true
 						}
